@@ -2,6 +2,7 @@ import MqttVerif.Driver.Common
 import MqttVerif.Codec.Wf
 import MqttVerif.Codec.Abs
 import MqttVerif.Codec.AccDump
+import MqttVerif.Driver.BuildDesc
 import MqttVerif.Spec.Placement
 import Std.Data.HashMap
 /-!
@@ -14,7 +15,10 @@ Trace driver for the packet codecs (`T codec …`).
   key with `accDump` of the model's packet — `codec.fields.<kind>.<key>` / `C03 accessors@<kind>`),
   and the C04 monitors are evaluated on the implementation's answer.
 `B <ver> <pw> <fh> <k=v…> = ok <size> <continuous> <buffers|~> ; <P-style result of parsing its own body> ; eq=<0|1> | err <E> | PANIC`
-  one builder call; C02 monitors on the implementation's answer, model compared on the parse.
+  one builder call; `<k=v…>` is the call itself (one token per setter, `none` = not called): the MODEL
+  of the builder (`Codec/Build.lean`) is run on it and compared with the implementation
+  (`codec.build.<kind>.{outcome|error|bytes|size}`, `C03 built_fields@<kind>`, see `Driver/BuildDesc.lean`);
+  C02 monitors on the implementation's answer, model parser compared on the parse.
 `E …` harness-side exhaustive sweep summary (statistics only; offending cases come as `P` lines).
 -/
 namespace MqttVerif.Driver
@@ -168,7 +172,7 @@ def codecB (st : CodecSt) (ln : Nat) (line : String) (r : Report) : CodecSt × R
   match line.splitOn " = " with
   | [lhs, rhs] =>
     match words lhs with
-    | _ :: ver :: pw :: fh :: _desc =>
+    | _ :: ver :: pw :: fh :: desc =>
       match ver.toNat?, pw.toNat?, parseHexByte fh with
       | some ver, some pw, some fh =>
         let kind := kindName ver (fh / 16)
@@ -177,8 +181,10 @@ def codecB (st : CodecSt) (ln : Nat) (line : String) (r : Report) : CodecSt × R
         match rhs.splitOn " ; " with
         | [one] =>
           match words one with
-          | ["PANIC"] => (st.tag s!"{kind}.build.panic", r.viol s!"C02 build_panic@{kind}" s!"{loc}: build() panicked")
-          | ["err", e] => (st.tag s!"{kind}.build.err.{e}", r)
+          | ["PANIC"] =>
+            let r := compareBuild st.name ln ver pw (fh / 16) desc .panic r
+            (st.tag s!"{kind}.build.panic", r.viol s!"C02 build_panic@{kind}" s!"{loc}: build() panicked")
+          | ["err", e] => (st.tag s!"{kind}.build.err.{e}", compareBuild st.name ln ver pw (fh / 16) desc (.err e) r)
           | _ => bad
         | [built, parsed, eqs] =>
           match words built with
@@ -186,6 +192,8 @@ def codecB (st : CodecSt) (ln : Nat) (line : String) (r : Report) : CodecSt × R
             match size.toNat?, hexToBytes cont, parseImplRes (words parsed) with
             | some size, some cont, some ir =>
               let st := st.tag s!"{kind}.build.ok"
+              -- the MODEL of the builder on the same call (`desc`): outcome, bytes, size, field values
+              let r := compareBuild st.name ln ver pw (fh / 16) desc (.ok size cont) r
               let bufsEq := bufs = "~" || (hexToBytes bufs == some cont)
               -- C02 monitors on the implementation's answer
               let r := if size ≠ cont.length then r.viol s!"C02 size@{kind}" s!"{loc}: size()={size}, encoding {short cont} has {cont.length} bytes" else r
